@@ -585,6 +585,9 @@ impl<'t, 'd> GGen<'t, 'd> {
         }
     }
 
+    pub fn gen_strat_pub(&mut self, d: u32, guarded: bool) -> Strat {
+        self.gen_strat(d, guarded)
+    }
     fn gen_strat(&mut self, d: u32, guarded: bool) -> Strat {
         let w_nested = if self.cfg.nested_delims && self.cfg.value_input { 2 } else { 0 };
         match self.t.weighted(&[4, 3, 3, w_nested]) {
